@@ -456,6 +456,16 @@ fn kernel_case(src: &mut Src, ctx: &mut RunCtx) -> RunResult {
             Err(p) => return ctx.tolerate(Violation::new(format!("C11:low-pass-panic:{}", p.site()), format!("low_pass({sr},{cutoff},{tw}) panicked: {}", p.msg))),
         };
         ctx.count("tap_design_checked");
+        // The complex-valued variant is the same design (so: the same symmetry
+        // and DC gain), with zero imaginary parts.
+        match crate::engine::catch(|| rustradio::fir::low_pass_complex(sr, cutoff, tw, &wt)) {
+            Ok(c) => {
+                if c.len() != t.len() || c.iter().zip(&t).any(|(c, t)| c.re.to_bits() != t.to_bits() || c.im != 0.0) {
+                    return ctx.tolerate(Violation::new("C11:low-pass-complex", format!("low_pass_complex({sr},{cutoff},{tw}) is not low_pass with zero imaginary parts ({} vs {} taps)", c.len(), t.len())));
+                }
+            }
+            Err(p) => return ctx.tolerate(Violation::new(format!("C11:low-pass-panic:{}", p.site()), format!("low_pass_complex({sr},{cutoff},{tw}) panicked: {}", p.msg))),
+        }
         let n = t.len();
         if n % 2 == 0 {
             return ctx.tolerate(Violation::new("C11:low-pass-even", format!("low_pass({sr},{cutoff},{tw}) returned {n} taps (even): not symmetric about a sample")));
